@@ -43,6 +43,11 @@ HELPERS = [
     slice_of("rhsReal", "R " + P + "rhsReal(int i) const", ["rhsUnscaled\\(i\\)"]),
     slice_of("lowerReal", "R " + P + "lowerReal(int i) const", ["lowerUnscaled\\(i\\)"]),
     slice_of("upperReal", "R " + P + "upperReal(int i) const", ["upperUnscaled\\(i\\)"]),
+    slice_of("lhsRational", "const Rational& " + P + "lhsRational(int i) const", ["_rationalLP->lhs\\(i\\)"]),
+    slice_of("rhsRational", "const Rational& " + P + "rhsRational(int i) const", ["_rationalLP->rhs\\(i\\)"]),
+    slice_of("lowerRational", "const Rational& " + P + "lowerRational(int i) const", ["_rationalLP->lower\\(i\\)"]),
+    slice_of("upperRational", "const Rational& " + P + "upperRational(int i) const", ["_rationalLP->upper\\(i\\)"]),
+    slice_of("objRational", "Rational " + P + "objRational(int i) const", ["_rationalLP->obj\\(i\\)"]),
     slice_of("_rangeTypeReal", "typename SoPlexBase<R>::RangeType " + P + "_rangeTypeReal(const R& lower, const R& upper) const"),
     slice_of("_rangeTypeRational", "typename SoPlexBase<R>::RangeType " + P + "_rangeTypeRational(const Rational& lower, const Rational& upper) const"),
     slice_of("_invalidateSolution", "void " + P + "_invalidateSolution()", ["_hasSolReal = false", "_hasSolRational = false"]),
@@ -69,6 +74,8 @@ CONFORMANCE = [
      "why": "the global `infinity` used by _rangeTypeReal is SOPLEX_DEFAULT_INFINITY"},
     {"file": "src/soplex.hpp", "regex": r"case SoPlexBase<R>::INFTY:\s*#ifdef SOPLEX_WITH_BOOST\s*_rationalPosInfty = value;.*?_rationalNegInfty = value;\s*_rationalNegInfty = -_rationalNegInfty;",
      "why": "_rationalNegInfty == -_rationalPosInfty (wrapper builds the pair from one number)"},
+    {"file": "src/soplex.hpp", "regex": r"lower\[SoPlexBase<R>::INFTY\] = 1e10;\s*upper\[SoPlexBase<R>::INFTY\] = 1e100;",
+     "why": "range of the parameter INFTY assumed by the contracts"},
     {"file": "src/soplex/spxlpbase.h", "regex": r"virtual void changeLhs\(int i, const R& newLhs, bool scale = false\)",
      "why": "LP stub signature: changeLhs(i, value, scale)"},
     {"file": "src/soplex/spxlpbase.h", "regex": r"virtual void changeRange\(int i, const R& newLhs, const R& newRhs, bool scale = false\)",
@@ -118,7 +125,7 @@ class T:
 
 def inst(name, function, sig, kind, prologue, defines=None, props=("C06", "C07"), loops=None, mutants=None,
          must=None, tier="quick", extra_slices=None, unwind=None, unwind_loops=None, ret=None, minob=40, finding=False):
-    d = {"SLICE": '"%s.inc"' % name, "KINDFILE": '"k_%s.h"' % kind, "PROLOGUE": prologue}
+    d = {"SLICE": '"%s.inc"' % name, "KINDFILE": '"k_%s.h"' % kind, "PROLOGUE": prologue or ";"}
     if ret:
         d["RET"] = ret
         d["RET_INT"] = ""
@@ -165,6 +172,481 @@ for fn, code, isrow, low, arg in [("changeLhsReal", "M_changeLhs_i", True, True,
                   mut("no_invalidate", nm, "_invalidateSolution();", ";")])
 
 
+
+def ghostmap():
+    m = {}
+    for line in open(os.path.join(HERE, "ghosts.h")):
+        mm = re.match(r"#define (\w+) (\w+\[\d+\])", line)
+        if mm:
+            m[mm.group(1)] = mm.group(2)
+    return m
+
+
+GM = ghostmap()
+CAP = 6
+ACAP = 2 * CAP + 2
+
+
+def tr(expr):
+    """translate ghost names (macros in ghosts.h) inside loop contracts, which are not preprocessed"""
+    expr = re.sub(r"ARR\((\w+)\)", lambda mo: "__CPROVER_object_upto(%s, %d)" % (mo.group(1), ACAP * 4), expr)
+    return re.sub(r"\b(\w+)\b", lambda mo: GM.get(mo.group(1), mo.group(1)), expr)
+
+
+def loop(n, locs, invs, assigns, decreases, fn=r"H::body\(this\)"):
+    return {"function": fn, "loop": n, "locals": locs, "invariants": [tr(x) for x in invs],
+            "assigns": [tr(x) for x in assigns], "decreases": tr(decreases)}
+
+
+def types_loop(n, isrow, var="i"):
+    """for(i = 0; i < numXxxRational(); i++) _types[i] = ...   at the ghost index g_k"""
+    gp = "gp_rowTypes" if isrow else "gp_colTypes"
+    dim = "g_qnr" if isrow else "g_qnc"
+    return loop(n, [var], ["0 <= %s && %s <= %s" % (var, var, dim),
+                           "(g_k < 0 || g_k >= %s) || ((g_k < %s) ? %s[g_k] == v_exp : %s[g_k] == v_old)" % (dim, var, gp, gp)],
+                [var, "ARR(%s)" % gp], "%s - %s" % (dim, var))
+
+
+for fn, code, isrow, low, arg in [("changeRangeReal", "M_changeRange_i", True, None, ("lhs", "rhs")),
+                                  ("changeBoundsReal", "M_changeBounds_i", False, None, ("lower", "upper"))]:
+    d = {"CODE": code}
+    if isrow:
+        d["ISROW"] = ""
+    nm = "pub_" + fn + "_i"
+    typ = "_rowTypes" if isrow else "_colTypes"
+    for variant, extra, finding in (("", {}, False), ("_anyinfty", {"ANY_INFTY": ""}, True)):
+        dd = dict(d)
+        dd.update(extra)
+        inst(nm + variant, "SoPlexBase<R>::%s(int i, const R& %s, const R& %s)%s" % (fn, arg[0], arg[1], " [any INFTY]" if finding else ""),
+             "void " + P + "%s(int i, const R& %s, const R& %s)" % (fn, arg[0], arg[1]), "pub_side2",
+             "int i = a_i; const R& %s = a_r1; const R& %s = a_r2;" % arg, dd,
+             must=[r"_invalidateSolution\(\)", typ + r"\[i\] = _rangeTypeReal"], finding=finding,
+             mutants=[mut("no_sync", nm + variant, *SYNC_MUT),
+                      mut("swap_args", nm + variant, "_rangeTypeReal(%s, %s)" % arg, "_rangeTypeReal(%s, %s)" % (arg[1], arg[0]))])
+
+for fn, code, isrow, low, arg in [("changeLhsReal", "M_changeLhs_v", True, True, "lhs"),
+                                  ("changeRhsReal", "M_changeRhs_v", True, False, "rhs"),
+                                  ("changeLowerReal", "M_changeLower_v", False, True, "lower"),
+                                  ("changeUpperReal", "M_changeUpper_v", False, False, "upper")]:
+    d = {"CODE": code}
+    if isrow:
+        d["ISROW"] = ""
+    if low:
+        d["CHG_LOW"] = ""
+    nm = "pub_" + fn + "_v"
+    typ = "_rowTypes" if isrow else "_colTypes"
+    inst(nm, "SoPlexBase<R>::%s(const VectorBase<R>& %s)" % (fn, arg),
+         "void " + P + "%s(const VectorBase<R>& %s)" % (fn, arg), "pub_vec1",
+         "const VectorBase<R>& %s = *a_vr1;" % arg, d,
+         must=[r"_invalidateSolution\(\)", typ + r"\[i\] = _rangeTypeRational"],
+         loops=[types_loop(0, isrow)],
+         mutants=[mut("no_sync", nm, *SYNC_MUT),
+                  mut("off_by_one", nm, "int i = 0;", "int i = 1;"),
+                  mut("no_invalidate", nm, "_invalidateSolution();", ";")])
+
+for fn, code, isrow, arg in [("changeRangeReal", "M_changeRange_v", True, ("lhs", "rhs")),
+                             ("changeBoundsReal", "M_changeBounds_v", False, ("lower", "upper"))]:
+    d = {"CODE": code}
+    if isrow:
+        d["ISROW"] = ""
+    nm = "pub_" + fn + "_v"
+    typ = "_rowTypes" if isrow else "_colTypes"
+    for variant, extra, finding in (("", {}, False), ("_anyinfty", {"ANY_INFTY": ""}, True)):
+        dd = dict(d)
+        dd.update(extra)
+        inst(nm + variant, "SoPlexBase<R>::%s(const VectorBase<R>& %s, const VectorBase<R>& %s)%s" % (fn, arg[0], arg[1], " [any INFTY]" if finding else ""),
+             "void " + P + "%s(const VectorBase<R>& %s, const VectorBase<R>& %s)" % (fn, arg[0], arg[1]), "pub_vec2",
+             "const VectorBase<R>& %s = *a_vr1; const VectorBase<R>& %s = *a_vr2;" % arg, dd,
+             must=[typ + r"\[i\] = _rangeTypeReal"], loops=[types_loop(0, isrow)], finding=finding,
+             mutants=[mut("no_sync", nm + variant, *SYNC_MUT),
+                      mut("swap_args", nm + variant, "_rangeTypeReal(%s[i], %s[i])" % arg, "_rangeTypeReal(%s[i], %s[i])" % (arg[1], arg[0]))])
+
+inst("pub_changeObjReal_i", "SoPlexBase<R>::changeObjReal(int i, const R& obj)", "void " + P + "changeObjReal(int i, const R& obj)", "pub_obj",
+     "int i = a_i; const R& obj = a_r1;", {"CODE": "M_changeObj_i"},
+     mutants=[mut("no_sync", "pub_changeObjReal_i", *SYNC_MUT), mut("no_scale", "pub_changeObjReal_i", "changeObj(i, obj, scale)", "changeObj(i, obj)")])
+inst("pub_changeObjReal_v", "SoPlexBase<R>::changeObjReal(const VectorBase<R>& obj)", "void " + P + "changeObjReal(const VectorBase<R>& obj)", "pub_obj",
+     "const VectorBase<R>& obj = *a_vr1;", {"CODE": "M_changeObj_v", "VEC": ""},
+     mutants=[mut("no_sync", "pub_changeObjReal_v", *SYNC_MUT), mut("no_invalidate", "pub_changeObjReal_v", "_invalidateSolution();", ";")])
+inst("pub_changeElementReal", "SoPlexBase<R>::changeElementReal(int i, int j, const R& val)", "void " + P + "changeElementReal(int i, int j, const R& val)", "pub_elem",
+     "int i = a_i; int j = a_j; const R& val = a_r1;",
+     mutants=[mut("no_sync", "pub_changeElementReal", *SYNC_MUT), mut("swap_ij", "pub_changeElementReal", "_rationalLP->changeElement(i, j, val)", "_rationalLP->changeElement(j, i, val)")])
+
+for fn, shape, code, ptype, pname, slot in [("addRowReal", "ADD_ROW", "M_addRow", "LPRowBase<R>", "lprow", "a_rowr"),
+                                            ("addColReal", "ADD_COL", "M_addCol", "LPColBase<R>", "lpcol", "a_colr"),
+                                            ("addRowsReal", "ADD_ROWS", "M_addRows", "LPRowSetBase<R>", "lprowset", "a_rsetr"),
+                                            ("addColsReal", "ADD_COLS", "M_addCols", "LPColSetBase<R>", "lpcolset", "a_csetr")]:
+    nm = "pub_" + fn
+    inst(nm, "SoPlexBase<R>::%s(const %s& %s)" % (fn, ptype, pname), "void " + P + "%s(const %s& %s)" % (fn, ptype, pname), "pub_add",
+         "const %s& %s = *%s;" % (ptype, pname, slot), {shape: "", "CODE": code},
+         must=[r"_completeRangeTypesRational\(\)"],
+         mutants=[mut("no_sync", nm, *SYNC_MUT), mut("no_complete", nm, "_completeRangeTypesRational();", ";")])
+
+for fn, isrow, code, ptype, pname, slot in [("changeRowReal", True, "M_changeRow", "LPRowBase<R>", "lprow", "a_rowr"),
+                                            ("changeColReal", False, "M_changeCol", "LPColReal", "lpcol", "a_colr")]:
+    nm = "pub_" + fn
+    typ = "_rowTypes" if isrow else "_colTypes"
+    for variant, extra, finding in (("", {}, False), ("_anyinfty", {"ANY_INFTY": ""}, True)):
+        dd = {"CODE": code}
+        if isrow:
+            dd["ISROW"] = ""
+        dd.update(extra)
+        inst(nm + variant, "SoPlexBase<R>::%s(int i, const %s& %s)%s" % (fn, ptype, pname, " [any INFTY]" if finding else ""),
+             "void " + P + "%s(int i, const %s& %s)" % (fn, ptype, pname), "pub_chg",
+             "int i = a_i; const %s& %s = *%s;" % (ptype, pname, slot), dd, finding=finding,
+             mutants=[mut("no_sync", nm + variant, *SYNC_MUT), mut("wrong_index", nm + variant, typ + "[i] =", typ + "[0] =")])
+
+for fn, isrow, code in [("removeRowReal", True, "M_removeRow"), ("removeColReal", False, "M_removeCol")]:
+    nm = "pub_" + fn
+    typ = "_rowTypes" if isrow else "_colTypes"
+    dd = {"CODE": code}
+    if isrow:
+        dd["ISROW"] = ""
+    inst(nm, "SoPlexBase<R>::%s(int i)" % fn, "void " + P + "%s(int i)" % fn, "pub_rm1", "int i = a_i;", dd,
+         must=[typ + r"\.reSize\("],
+         mutants=[mut("no_sync", nm, *SYNC_MUT), mut("no_resize", nm, typ + ".reSize(", "(void)("),
+                  mut("no_swap", nm, typ + "[i] = ", typ + "[0] = ")])
+
+BODY = r"H::body\(this\)"
+for fn, isrow, code in [("removeRowsReal", True, "M_removeRows"), ("removeColsReal", False, "M_removeCols")]:
+    nm = "pub_" + fn + "_perm"
+    typ = "_rowTypes" if isrow else "_colTypes"
+    dd = {"CODE": code}
+    if isrow:
+        dd["ISROW"] = ""
+    inst(nm, "SoPlexBase<R>::%s(int perm[])  [bounded: <= CAP rows/columns, loops unwound]" % fn, "void " + P + "%s(int perm[])" % fn, "pub_rmperm",
+         "int* perm = a_perm;", dd, unwind_loops=[{"function": BODY, "loop": 0}, {"function": BODY, "loop": 1}],
+         mutants=[mut("no_sync", nm, *SYNC_MUT), mut("no_resize", nm, typ + ".reSize(", "(void)("),
+                  mut("wrong_guard", nm, "if(perm[i] >= 0)", "if(perm[i] > 0)")])
+
+for fn, isrow, ppm, rng in [("removeRowsReal", True, 1, False), ("removeRowRangeReal", True, 1, True),
+                            ("removeColsReal", False, 2, False), ("removeColRangeReal", False, 2, True),
+                            ("removeRowsRational", True, 3, False), ("removeRowRangeRational", True, 3, True),
+                            ("removeColsRational", False, 4, False), ("removeColRangeRational", False, 4, True)]:
+    nm = ("rat_" if ppm > 2 else "pub_") + fn + ("" if rng else "_idx")
+    dd = {"PPM": str(ppm), "DIMV": ("qnr" if isrow else "qnc") if ppm > 2 else ("nr" if isrow else "nc")}
+    if rng:
+        dd["RANGE"] = ""
+        sg = "%s(int start, int end, int perm[])" % fn
+        pro = "int start = a_i; int end = a_j; int* perm = a_perm;"
+        m2 = mut("swap", nm, "_rangeToPerm(start, end, perm,", "_rangeToPerm(end, start, perm,")
+    else:
+        sg = "%s(int idx[], int n, int perm[])" % fn
+        pro = "int* idx = a_idx; int n = a_n; int* perm = a_perm;"
+        m2 = mut("wrong_n", nm, "_idxToPerm(idx, n, perm,", "_idxToPerm(idx, n - 1, perm,")
+    other = {"removeRowsReal": "removeColsReal", "removeColsReal": "removeRowsReal", "removeRowsRational": "removeColsRational", "removeColsRational": "removeRowsRational"}
+    callee = fn.replace("Range", "s")
+    inst(nm, "SoPlexBase<R>::" + sg, "void " + P + sg, "pub_rmidx", pro, dd, props=("C06", "C07") if ppm > 2 else ("C06",),
+         mutants=[m2, mut("wrong_callee", nm, "SoPlexBase<R>::%s(perm);" % callee, "SoPlexBase<R>::%s(perm);" % other[callee])])
+
+inst("pub_clearLPReal", "SoPlexBase<R>::clearLPReal()", "void " + P + "clearLPReal()", "pub_clear", "", {}, props=("C06", "C07", "C11"),
+     mutants=[mut("no_sync", "pub_clearLPReal", *SYNC_MUT), mut("no_lu_clear", "pub_clearLPReal", "_rationalLUSolver.clear();", ";"),
+              mut("keep_basis", "pub_clearLPReal", "_hasBasis = false;", ";")])
+
+
+# ------------------------------------------------------------------------------------------------
+# INTERNAL twins _xxxReal, setBasis, clearBasis   (F1 basis bookkeeping, F3 = C11)
+# ------------------------------------------------------------------------------------------------
+IP = ("C06", "C11")
+LU_MUT = ("_rationalLUSolver.clear();", ";")
+
+
+def bs_loop_desc(n, isrow, var="i"):
+    """for(i = numXxx() - 1; i >= 0; i--) patch _basisStatusXxx[i]   at the ghost index g_k"""
+    gp = "gp_bsRows" if isrow else "gp_bsCols"
+    dim = "g_nr" if isrow else "g_nc"
+    return loop(n, [var], ["-1 <= %s && %s < %s" % (var, var, dim) + " || (%s == -1 && %s == 0)" % (var, dim),
+                           "(g_k < 0 || g_k >= %s) || ((g_k > %s) ? %s[g_k] == v_exp : %s[g_k] == v_old)" % (dim, var, gp, gp)],
+                [var, "ARR(%s)" % gp], "%s + 1" % var)
+
+
+for fn, code, isrow, low, arg in [("_changeLhsReal", "M_changeLhs", True, True, "lhs"),
+                                  ("_changeRhsReal", "M_changeRhs", True, False, "rhs"),
+                                  ("_changeLowerReal", "M_changeLower", False, True, "lower"),
+                                  ("_changeUpperReal", "M_changeUpper", False, False, "upper")]:
+    d = {}
+    if isrow:
+        d["ISROW"] = ""
+    if low:
+        d["CHG_LOW"] = ""
+    on = "ON_LOWER" if low else "ON_UPPER"
+    other = "ON_UPPER" if low else "ON_LOWER"
+    nm = "int" + fn + "_i"
+    for variant, extra, finding in (("", {}, False), ("_fixedclause", {"CLAUSE_FIXED": ""}, True)):
+        dd = dict(d, CODE=code + "_i")
+        dd.update(extra)
+        inst(nm + variant, "SoPlexBase<R>::%s(int i, const R& %s)%s" % (fn, arg, " [+ clause: FIXED only with equal bounds]" if finding else ""),
+             "void " + P + "%s(int i, const R& %s)" % (fn, arg), "int_side1", "int i = a_i; const R& %s = a_r1;" % arg, dd, props=IP, finding=finding,
+             must=[r"_rationalLUSolver\.clear\(\)"],
+             mutants=[mut("no_lu_clear", nm + variant, *LU_MUT),
+                      mut("keep_status", nm + variant, "== SPxSolverBase<R>::%s" % on, "== SPxSolverBase<R>::BASIC"),
+                      mut("no_scale", nm + variant, ", scale);", ");")])
+    nm = "int" + fn + "_v"
+    inst(nm, "SoPlexBase<R>::%s(const VectorBase<R>& %s)" % (fn, arg), "void " + P + "%s(const VectorBase<R>& %s)" % (fn, arg), "int_vec1",
+         "const VectorBase<R>& %s = *a_vr1;" % arg, dict(d, CODE=code + "_v"), props=IP, loops=[bs_loop_desc(0, isrow)],
+         mutants=[mut("no_lu_clear", nm, *LU_MUT), mut("off_by_one", nm, " - 1; i >= 0", " - 1; i > 0"),
+                  mut("wrong_status", nm, "? SPxSolverBase<R>::%s" % other, "? SPxSolverBase<R>::%s" % on, )])
+
+for fn, code, isrow, arg in [("_changeRangeReal", "M_changeRange", True, ("lhs", "rhs")), ("_changeBoundsReal", "M_changeBounds", False, ("lower", "upper"))]:
+    d = {}
+    if isrow:
+        d["ISROW"] = ""
+    nm = "int" + fn + "_i"
+    inst(nm, "SoPlexBase<R>::%s(int i, const R& %s, const R& %s)" % (fn, arg[0], arg[1]),
+         "void " + P + "%s(int i, const R& %s, const R& %s)" % (fn, arg[0], arg[1]), "int_side2",
+         "int i = a_i; const R& %s = a_r1; const R& %s = a_r2;" % arg, dict(d, CODE=code + "_i"), props=IP,
+         mutants=[mut("no_lu_clear", nm, *LU_MUT), mut("wrong_status", nm, "? SPxSolverBase<R>::ON_UPPER", "? SPxSolverBase<R>::ON_LOWER"),
+                  mut("no_else", nm, "else if(_basisStatus", "else if(false && _basisStatus")])
+    nm = "int" + fn + "_v"
+    inst(nm, "SoPlexBase<R>::%s(const VectorBase<R>& %s, const VectorBase<R>& %s)" % (fn, arg[0], arg[1]),
+         "void " + P + "%s(const VectorBase<R>& %s, const VectorBase<R>& %s)" % (fn, arg[0], arg[1]), "int_vec2",
+         "const VectorBase<R>& %s = *a_vr1; const VectorBase<R>& %s = *a_vr2;" % arg, dict(d, CODE=code + "_v"), props=IP,
+         loops=[bs_loop_desc(0, isrow)],
+         mutants=[mut("no_lu_clear", nm, *LU_MUT), mut("off_by_one", nm, " - 1; i >= 0", " - 1; i > 0"),
+                  mut("wrong_status", nm, "? SPxSolverBase<R>::ON_UPPER", "? SPxSolverBase<R>::ON_LOWER")])
+
+inst("int_addRowReal", "SoPlexBase<R>::_addRowReal(const LPRowBase<R>& lprow)", "void " + P + "_addRowReal(const LPRowBase<R>& lprow)", "int_add",
+     "const LPRowBase<R>& lprow = *a_rowr;", {"ADD_ROW": "", "ISROW": "", "CODE": "M_addRow"}, props=IP,
+     mutants=[mut("no_lu_clear", "int_addRowReal", *LU_MUT), mut("wrong_status", "int_addRowReal", "append(SPxSolverBase<R>::BASIC)", "append(SPxSolverBase<R>::ZERO)")])
+inst("int_addRowReal3", "SoPlexBase<R>::_addRowReal(R lhs, const SVectorBase<R>& lprow, R rhs)", "void " + P + "_addRowReal(R lhs, const SVectorBase<R>& lprow, R rhs)", "int_add",
+     "R lhs = a_r1; const SVectorBase<R>& lprow = *a_svr; R rhs = a_r2;", {"ADD_ROW3": "", "ISROW": "", "CODE": "M_addRow3"}, props=IP,
+     mutants=[mut("no_lu_clear", "int_addRowReal3", *LU_MUT), mut("wrong_status", "int_addRowReal3", "append(SPxSolverBase<R>::BASIC)", "append(SPxSolverBase<R>::ZERO)")])
+inst("int_addRowsReal", "SoPlexBase<R>::_addRowsReal(const LPRowSetBase<R>& lprowset)", "void " + P + "_addRowsReal(const LPRowSetBase<R>& lprowset)", "int_add",
+     "const LPRowSetBase<R>& lprowset = *a_rsetr;", {"ADD_ROWS": "", "ISROW": "", "CODE": "M_addRows"}, props=IP,
+     mutants=[mut("no_lu_clear", "int_addRowsReal", *LU_MUT), mut("wrong_count", "int_addRowsReal", "append(lprowset.num(),", "append(lprowset.num() - 1,")])
+inst("int_addColReal", "SoPlexBase<R>::_addColReal(const LPColReal& lpcol)", "void " + P + "_addColReal(const LPColReal& lpcol)", "int_add",
+     "const LPColReal& lpcol = *a_colr;", {"ADD_COL": "", "CODE": "M_addCol"}, props=IP,
+     mutants=[mut("no_lu_clear", "int_addColReal", *LU_MUT), mut("wrong_test", "int_addColReal", "lpcol.lower() > -realParam", "lpcol.lower() < -realParam")])
+inst("int_addColReal4", "SoPlexBase<R>::_addColReal(R obj, R lower, const SVectorBase<R>& lpcol, R upper)",
+     "void " + P + "_addColReal(R obj, R lower, const SVectorBase<R>& lpcol, R upper)", "int_add",
+     "R obj = a_r3; R lower = a_r1; const SVectorBase<R>& lpcol = *a_svr; R upper = a_r2;", {"ADD_COL4": "", "CODE": "M_addCol4"}, props=IP, finding=True,
+     mutants=[mut("no_lu_clear", "int_addColReal4", *LU_MUT)])
+inst("int_addColsReal", "SoPlexBase<R>::_addColsReal(const LPColSetReal& lpcolset)", "void " + P + "_addColsReal(const LPColSetReal& lpcolset)", "int_add",
+     "const LPColSetReal& lpcolset = *a_csetr;", {"ADD_COLS": "", "CODE": "M_addCols"}, props=IP,
+     loops=[loop(0, ["i"], ["0 <= i && i <= g_n", "*gp_bsc_size == g_nbc + i",
+                            "(g_k2 < 0 || g_k2 >= i) || gp_bsCols[g_nbc + g_k2] == v_exp2",
+                            "(g_k < 0 || g_k >= g_nbc) || gp_bsCols[g_k] == v_old"],
+                 ["i", "ARR(gp_bsCols)", "*gp_bsc_size"], "g_n - i")],
+     mutants=[mut("no_lu_clear", "int_addColsReal", *LU_MUT), mut("off_by_one", "int_addColsReal", "int i = 0;", "int i = 1;"),
+              mut("wrong_test", "int_addColsReal", "lpcolset.upper(i) < realParam", "lpcolset.upper(i) > realParam")])
+
+inst("int_changeRowReal", "SoPlexBase<R>::_changeRowReal(int i, const LPRowBase<R>& lprow)", "void " + P + "_changeRowReal(int i, const LPRowBase<R>& lprow)", "int_chg",
+     "int i = a_i; const LPRowBase<R>& lprow = *a_rowr;", {"ISROW": "", "CODE": "M_changeRow"}, props=IP,
+     mutants=[mut("no_lu_clear", "int_changeRowReal", *LU_MUT), mut("keep_basis", "int_changeRowReal", "_hasBasis = false;", ";")])
+inst("int_changeColReal", "SoPlexBase<R>::_changeColReal(int i, const LPColReal& lpcol)", "void " + P + "_changeColReal(int i, const LPColReal& lpcol)", "int_chg",
+     "int i = a_i; const LPColReal& lpcol = *a_colr;", {"CODE": "M_changeCol"}, props=IP,
+     mutants=[mut("no_lu_clear", "int_changeColReal", *LU_MUT), mut("keep_basis", "int_changeColReal", "_hasBasis = false;", ";"),
+              mut("wrong_status", "int_changeColReal", "SPxSolverBase<R>::ON_UPPER : SPxSolverBase<R>::ZERO", "SPxSolverBase<R>::ON_LOWER : SPxSolverBase<R>::ZERO")])
+inst("int_changeElementReal", "SoPlexBase<R>::_changeElementReal(int i, int j, const R& val)", "void " + P + "_changeElementReal(int i, int j, const R& val)", "int_elem",
+     "int i = a_i; int j = a_j; const R& val = a_r1;", {}, props=IP, finding=True, mutants=[mut("no_lu_clear", "int_changeElementReal", *LU_MUT)])
+
+for fn, isrow, code in [("_removeRowReal", True, "M_removeRow"), ("_removeColReal", False, "M_removeCol")]:
+    nm = "int" + fn
+    dd = {"CODE": code}
+    if isrow:
+        dd["ISROW"] = ""
+    arr = "_basisStatusRows" if isrow else "_basisStatusCols"
+    inst(nm, "SoPlexBase<R>::%s(int i)" % fn, "void " + P + "%s(int i)" % fn, "int_rm1", "int i = a_i;", dd, props=IP,
+         mutants=[mut("no_lu_clear", nm, *LU_MUT), mut("keep_basis", nm, "_hasBasis = false;", ";"), mut("no_shrink", nm, arr + ".removeLast();", ";")])
+    nm = "int" + fn.replace("Row", "Rows").replace("Col", "Cols") + "_perm"
+    f2 = fn.replace("Row", "Rows").replace("Col", "Cols")
+    inst(nm, "SoPlexBase<R>::%s(int perm[])  [bounded: <= CAP rows/columns, loops unwound]" % f2, "void " + P + "%s(int perm[])" % f2, "int_rmperm",
+         "int* perm = a_perm;", dict(dd, CODE=code + "s"), props=IP, finding=True, unwind_loops=[{"function": BODY, "loop": 0}],
+         mutants=[mut("no_lu_clear", nm, *LU_MUT)])
+
+inst("int_setBasis", "SoPlexBase<R>::setBasis(const VarStatus rows[], const VarStatus cols[])",
+     "void " + P + "setBasis(const typename SPxSolverBase<R>::VarStatus rows[], const typename SPxSolverBase<R>::VarStatus cols[])", "int_basis",
+     "const VarStatusR* rows = a_rows; const VarStatusR* cols = a_cols;", {"SETBASIS": ""}, props=("C11", "C06"),
+     loops=[loop(0, ["i"], ["(-1 <= i && i < g_nr) || (i == -1 && g_nr == 0)", "(g_k < 0 || g_k >= g_nr) || g_k <= i || gp_bsRows[g_k] == v_old"], ["i", "ARR(gp_bsRows)"], "i + 1"),
+            loop(1, ["j"], ["(-1 <= j && j < g_nc) || (j == -1 && g_nc == 0)", "(g_k2 < 0 || g_k2 >= g_nc) || g_k2 <= j || gp_bsCols[g_k2] == v_old2"], ["j", "ARR(gp_bsCols)"], "j + 1")],
+     mutants=[mut("no_lu_clear", "int_setBasis", *LU_MUT), mut("swap", "int_setBasis", "_basisStatusCols[j] = cols[j];", "_basisStatusCols[j] = rows[j];"),
+              mut("no_hasbasis", "int_setBasis", "_hasBasis = true;", ";")])
+inst("int_clearBasis", "SoPlexBase<R>::clearBasis()", "void " + P + "clearBasis()", "int_basis", "", {}, props=("C11", "C06"),
+     mutants=[mut("no_lu_clear", "int_clearBasis", *LU_MUT), mut("keep_basis", "int_clearBasis", "_hasBasis = false;", "_hasBasis = true;")])
+
+
+# ------------------------------------------------------------------------------------------------
+# PUBLIC RATIONAL modifiers (C07 F2; C06 F1 invalidation)
+# ------------------------------------------------------------------------------------------------
+RP = ("C07", "C06")
+ONLY_MUT = ("== SYNCMODE_ONLYREAL", "== SYNCMODE_MANUAL")
+
+
+def types_loop_rat(n, isrow, var="i"):
+    return types_loop(n, isrow, var)
+
+
+for fn, code, isrow, low, arg in [("changeLhsRational", "M_changeLhs", True, True, "lhs"),
+                                  ("changeRhsRational", "M_changeRhs", True, False, "rhs"),
+                                  ("changeLowerRational", "M_changeLower", False, True, "lower"),
+                                  ("changeUpperRational", "M_changeUpper", False, False, "upper")]:
+    d = {}
+    if isrow:
+        d["ISROW"] = ""
+    if low:
+        d["CHG_LOW"] = ""
+    typ = "_rowTypes" if isrow else "_colTypes"
+    twin = "_" + fn.replace("Rational", "Real")
+    nm = "rat_" + fn + "_i"
+    inst(nm, "SoPlexBase<R>::%s(int i, const Rational& %s)" % (fn, arg), "void " + P + "%s(int i, const Rational& %s)" % (fn, arg), "rat_side1",
+         "int i = a_i; const Rational& %s = a_q1;" % arg, dict(d, CODE=code + "_i"), props=RP,
+         mutants=[mut("no_early_return", nm, *ONLY_MUT), mut("no_sync", nm, *SYNC_MUT), mut("wrong_index", nm, typ + "[i] =", typ + "[0] ="),
+                  mut("no_invalidate", nm, "_invalidateSolution();", ";")])
+    if fn != "changeRhsRational":     # there is no (int, const mpq_t*) twin of changeRhsRational
+        nm = "rat_" + fn + "_i_gmp"
+        inst(nm, "SoPlexBase<R>::%s(int i, const mpq_t* %s)" % (fn, arg), "void " + P + "%s(int i, const mpq_t* %s)" % (fn, arg), "rat_side1",
+             "int i = a_i; const mpq_t* %s = a_m1;" % arg, dict(d, CODE=code + "_i"), props=RP,
+             mutants=[mut("no_early_return", nm, *ONLY_MUT), mut("no_sync", nm, *SYNC_MUT), mut("wrong_index", nm, typ + "[i] =", typ + "[0] =")])
+    nm = "rat_" + fn + "_v"
+    inst(nm, "SoPlexBase<R>::%s(const VectorRational& %s)" % (fn, arg), "void " + P + "%s(const VectorRational& %s)" % (fn, arg), "rat_vec1",
+         "const VectorRational& %s = *a_vq1;" % arg, dict(d, CODE=code + "_v"), props=RP, loops=[types_loop(0, isrow)],
+         mutants=[mut("no_early_return", nm, *ONLY_MUT), mut("no_sync", nm, *SYNC_MUT), mut("off_by_one", nm, "int i = 0;", "int i = 1;")])
+
+for fn, code, isrow, arg in [("changeRangeRational", "M_changeRange", True, ("lhs", "rhs")), ("changeBoundsRational", "M_changeBounds", False, ("lower", "upper"))]:
+    d = {}
+    if isrow:
+        d["ISROW"] = ""
+    typ = "_rowTypes" if isrow else "_colTypes"
+    nm = "rat_" + fn + "_i"
+    inst(nm, "SoPlexBase<R>::%s(int i, const Rational& %s, const Rational& %s)" % (fn, arg[0], arg[1]),
+         "void " + P + "%s(int i, const Rational& %s, const Rational& %s)" % (fn, arg[0], arg[1]), "rat_side2",
+         "int i = a_i; const Rational& %s = a_q1; const Rational& %s = a_q2;" % arg, dict(d, CODE=code + "_i"), props=RP,
+         mutants=[mut("no_early_return", nm, *ONLY_MUT), mut("no_sync", nm, *SYNC_MUT),
+                  mut("swap_args", nm, "_rangeTypeRational(%s, %s)" % arg, "_rangeTypeRational(%s, %s)" % (arg[1], arg[0]))])
+    nm = "rat_" + fn + "_i_gmp"
+    inst(nm, "SoPlexBase<R>::%s(int i, const mpq_t* %s, const mpq_t* %s)" % (fn, arg[0], arg[1]),
+         "void " + P + "%s(int i, const mpq_t* %s, const mpq_t* %s)" % (fn, arg[0], arg[1]), "rat_side2",
+         "int i = a_i; const mpq_t* %s = a_m1; const mpq_t* %s = a_m2;" % arg, dict(d, CODE=code + "_i"), props=RP,
+         mutants=[mut("no_early_return", nm, *ONLY_MUT), mut("no_sync", nm, *SYNC_MUT), mut("wrong_index", nm, typ + "[i] =", typ + "[0] =")])
+    nm = "rat_" + fn + "_v"
+    inst(nm, "SoPlexBase<R>::%s(const VectorRational& %s, const VectorRational& %s)" % (fn, arg[0], arg[1]),
+         "void " + P + "%s(const VectorRational& %s, const VectorRational& %s)" % (fn, arg[0], arg[1]), "rat_vec2",
+         "const VectorRational& %s = *a_vq1; const VectorRational& %s = *a_vq2;" % arg, dict(d, CODE=code + "_v"), props=RP, loops=[types_loop(0, isrow)],
+         mutants=[mut("no_early_return", nm, *ONLY_MUT), mut("no_sync", nm, *SYNC_MUT),
+                  mut("swap_args", nm, "_rangeTypeRational(%s[i], %s[i])" % arg, "_rangeTypeRational(%s[i], %s[i])" % (arg[1], arg[0]))])
+
+for suffix, sig, pro, dd in [("_i", "changeObjRational(int i, const Rational& obj)", "int i = a_i; const Rational& obj = a_q1;", {"CODE": "M_changeObj_i"}),
+                             ("_i_gmp", "changeObjRational(int i, const mpq_t* obj)", "int i = a_i; const mpq_t* obj = a_m1;", {"CODE": "M_changeObj_i"}),
+                             ("_v", "changeObjRational(const VectorRational& obj)", "const VectorRational& obj = *a_vq1;", {"CODE": "M_changeObj_v", "VEC": ""})]:
+    for variant, extra, finding in (("", {}, False), ("_scaleflag", {"CLAUSE_SCALE": ""}, True)):
+        nm = "rat_changeObjRational" + suffix + variant
+        d2 = dict(dd)
+        d2.update(extra)
+        inst(nm, "SoPlexBase<R>::" + sig + (" [+ clause: real LP gets its scale flag]" if finding else ""), "void " + P + sig, "rat_obj", pro, d2, props=RP, finding=finding,
+             mutants=[mut("no_early_return", nm, *ONLY_MUT), mut("no_sync", nm, *SYNC_MUT), mut("no_invalidate", nm, "_invalidateSolution();", ";")])
+
+for suffix, sig, pro in [("", "changeElementRational(int i, int j, const Rational& val)", "int i = a_i; int j = a_j; const Rational& val = a_q1;"),
+                         ("_gmp", "changeElementRational(int i, int j, const mpq_t* val)", "int i = a_i; int j = a_j; const mpq_t* val = a_m1;")]:
+    nm = "rat_changeElementRational" + suffix
+    inst(nm, "SoPlexBase<R>::" + sig, "void " + P + sig, "rat_elem", pro, {}, props=RP,
+         mutants=[mut("no_early_return", nm, *ONLY_MUT), mut("no_sync", nm, *SYNC_MUT), mut("swap_ij", nm, "_changeElementReal(i, j,", "_changeElementReal(j, i,")])
+
+for fn, shape, code, ptype, pname, slot in [("addRowRational", "ADD_ROW", "M_addRow", "LPRowRational", "lprow", "a_rowq"),
+                                            ("addColRational", "ADD_COL", "M_addCol", "LPColRational", "lpcol", "a_colq"),
+                                            ("addRowsRational", "ADD_ROWS", "M_addRows", "LPRowSetRational", "lprowset", "a_rsetq"),
+                                            ("addColsRational", "ADD_COLS", "M_addCols", "LPColSetRational", "lpcolset", "a_csetq")]:
+    nm = "rat_" + fn
+    inst(nm, "SoPlexBase<R>::%s(const %s& %s)" % (fn, ptype, pname), "void " + P + "%s(const %s& %s)" % (fn, ptype, pname), "rat_add",
+         "const %s& %s = *%s;" % (ptype, pname, slot), {shape: "", "CODE": code}, props=RP,
+         mutants=[mut("no_early_return", nm, *ONLY_MUT), mut("no_sync", nm, *SYNC_MUT), mut("no_complete", nm, "_completeRangeTypesRational();", ";")])
+
+for fn, isrow, code, ptype, pname, slot in [("changeRowRational", True, "M_changeRow", "LPRowRational", "lprow", "a_rowq"),
+                                            ("changeColRational", False, "M_changeCol", "LPColRational", "lpcol", "a_colq")]:
+    nm = "rat_" + fn
+    typ = "_rowTypes" if isrow else "_colTypes"
+    dd = {"CODE": code}
+    if isrow:
+        dd["ISROW"] = ""
+    inst(nm, "SoPlexBase<R>::%s(int i, const %s& %s)" % (fn, ptype, pname), "void " + P + "%s(int i, const %s& %s)" % (fn, ptype, pname), "rat_chg",
+         "int i = a_i; const %s& %s = *%s;" % (ptype, pname, slot), dd, props=RP,
+         mutants=[mut("no_early_return", nm, *ONLY_MUT), mut("no_sync", nm, *SYNC_MUT), mut("wrong_index", nm, typ + "[i] =", typ + "[0] =")])
+
+for fn, isrow, code in [("removeRowRational", True, "M_removeRow"), ("removeColRational", False, "M_removeCol")]:
+    nm = "rat_" + fn
+    typ = "_rowTypes" if isrow else "_colTypes"
+    dd = {"CODE": code}
+    if isrow:
+        dd["ISROW"] = ""
+    inst(nm, "SoPlexBase<R>::%s(int i)" % fn, "void " + P + "%s(int i)" % fn, "rat_rm1", "int i = a_i;", dd, props=RP,
+         mutants=[mut("no_early_return", nm, *ONLY_MUT), mut("no_sync", nm, *SYNC_MUT), mut("no_resize", nm, typ + ".reSize(", "(void)(")])
+    f2 = fn.replace("Row", "Rows").replace("Col", "Cols")
+    nm = "rat_" + f2 + "_perm"
+    inst(nm, "SoPlexBase<R>::%s(int perm[])  [bounded: <= CAP rows/columns, loops unwound]" % f2, "void " + P + "%s(int perm[])" % f2, "rat_rmperm",
+         "int* perm = a_perm;", dict(dd, CODE=code + "s"), props=RP, unwind_loops=[{"function": BODY, "loop": 0}, {"function": BODY, "loop": 1}],
+         mutants=[mut("no_early_return", nm, *ONLY_MUT), mut("no_sync", nm, *SYNC_MUT), mut("wrong_guard", nm, "if(perm[i] >= 0)", "if(perm[i] > 0)")])
+
+inst("rat_clearLPRational", "SoPlexBase<R>::clearLPRational()", "void " + P + "clearLPRational()", "pub_clear", "", {"RATIONAL": ""}, props=("C07", "C06", "C11"), finding=True,
+     mutants=[mut("no_sync", "rat_clearLPRational", *SYNC_MUT)])
+
+
+# ------------------------------------------------------------------------------------------------
+# helpers: bound-type classification, perm builders, _invalidateSolution
+# ------------------------------------------------------------------------------------------------
+RTYPE = "typename SoPlexBase<R>::RangeType "
+inst("aux_rangeTypeReal", "SoPlexBase<R>::_rangeTypeReal(const R& lower, const R& upper) const", RTYPE + P + "_rangeTypeReal(const R& lower, const R& upper) const", "aux_rt",
+     "const R& lower = a_r1; const R& upper = a_r2;", {"RT_REAL": ""}, props=("C07",), ret="RangeType",
+     mutants=[mut("swap", "aux_rangeTypeReal", "return RANGETYPE_UPPER;", "return RANGETYPE_LOWER;"), mut("strict", "aux_rangeTypeReal", "lower <= R(-infinity)", "lower < R(-infinity)")])
+inst("aux_rangeTypeRational", "SoPlexBase<R>::_rangeTypeRational(const Rational& lower, const Rational& upper) const",
+     RTYPE + P + "_rangeTypeRational(const Rational& lower, const Rational& upper) const", "aux_rt",
+     "const Rational& lower = a_q1; const Rational& upper = a_q2;", {"RT_RATIONAL": ""}, props=("C07",), ret="RangeType",
+     mutants=[mut("swap", "aux_rangeTypeRational", "return RANGETYPE_FIXED;", "return RANGETYPE_BOXED;"), mut("strict", "aux_rangeTypeRational", "upper >= _rationalPosInfty", "upper > _rationalPosInfty")])
+inst("aux_switchRangeType", "SoPlexBase<R>::_switchRangeType(const RangeType& rangeType) const",
+     RTYPE + P + "_switchRangeType(const typename SoPlexBase<R>::RangeType& rangeType) const", "aux_rt",
+     "const RangeType& rangeType = a_rt;", {"RT_SWITCH": ""}, props=("C07",), ret="RangeType",
+     mutants=[mut("same", "aux_switchRangeType", "return RANGETYPE_UPPER;", "return RANGETYPE_LOWER;")])
+inst("aux_lowerFinite", "SoPlexBase<R>::_lowerFinite(const RangeType& rangeType) const", "bool " + P + "_lowerFinite(const RangeType& rangeType) const", "aux_rt",
+     "const RangeType& rangeType = a_rt;", {"RT_LOWERFIN": ""}, props=("C07",), ret="bool",
+     mutants=[mut("wrong", "aux_lowerFinite", "RANGETYPE_LOWER", "RANGETYPE_UPPER")])
+inst("aux_upperFinite", "SoPlexBase<R>::_upperFinite(const RangeType& rangeType) const", "bool " + P + "_upperFinite(const RangeType& rangeType) const", "aux_rt",
+     "const RangeType& rangeType = a_rt;", {"RT_UPPERFIN": ""}, props=("C07",), ret="bool",
+     mutants=[mut("wrong", "aux_upperFinite", "RANGETYPE_FIXED", "RANGETYPE_FREE")])
+inst("aux_invalidateSolution", "SoPlexBase<R>::_invalidateSolution()", "void " + P + "_invalidateSolution()", "aux_inval", "", {}, props=("C06",),
+     mutants=[mut("keep_real", "aux_invalidateSolution", "_hasSolReal = false;", ";"), mut("keep_rat", "aux_invalidateSolution", "_hasSolRational = false;", ";"),
+              mut("keep_status", "aux_invalidateSolution", "_status = SPxSolverBase<R>::UNKNOWN;", ";")])
+
+
+def rt_loops(first_rows, dim_r, dim_c, complete=False):
+    """two loops: one over rows (ghost g_k, v_exp/v_old), one over columns (g_k2, v_exp2/v_old2)"""
+    def one(n, isrow, hint):
+        gp, k, e, o, dim, start = (("gp_rowTypes", "g_k", "v_exp", "v_old", dim_r, "g_nrt") if isrow else ("gp_colTypes", "g_k2", "v_exp2", "v_old2", dim_c, "g_nct"))
+        sz = "gp_rt_size" if isrow else "gp_ct_size"
+        if complete:
+            inv = ["%s <= i && i <= %s" % (start, dim), "*%s == i" % sz,
+                   "(%s < 0 || %s >= i) || %s[%s] == (%s < %s ? %s : %s)" % (k, k, gp, k, k, start, o, e)]
+            ass = [["i", hint], "ARR(%s)" % gp, "*%s" % sz]
+        else:
+            inv = ["0 <= i && i <= %s" % dim, "(%s < 0 || %s >= i) || %s[%s] == %s" % (k, k, gp, k, e)]
+            ass = [["i", hint], "ARR(%s)" % gp]
+        l = loop(n, [["i", hint]], inv, [x if isinstance(x, str) else "i" for x in ass], "%s - i" % dim)
+        return l
+    if first_rows:
+        return [one(0, True, "1::i"), one(1, False, "2::i")]
+    return [one(0, False, "1::i"), one(1, True, "2::i")]
+
+
+inst("aux_recomputeRangeTypesRational", "SoPlexBase<R>::_recomputeRangeTypesRational()", "void " + P + "_recomputeRangeTypesRational()", "aux_recompute", "", {"RATIONAL": ""},
+     props=("C07",), loops=rt_loops(True, "g_qnr", "g_qnc"),
+     mutants=[mut("off_by_one", "aux_recomputeRangeTypesRational", "int i = 0;", "int i = 1;"), mut("no_resize", "aux_recomputeRangeTypesRational", "_colTypes.reSize(", "(void)(")])
+inst("aux_recomputeRangeTypesReal", "SoPlexBase<R>::_recomputeRangeTypesReal()", "void " + P + "_recomputeRangeTypesReal()", "aux_recompute", "", {"REAL": ""},
+     props=("C07",), loops=rt_loops(True, "g_nr", "g_nc"),
+     mutants=[mut("off_by_one", "aux_recomputeRangeTypesReal", "int i = 0;", "int i = 1;"), mut("swap", "aux_recomputeRangeTypesReal", "_realLP->lower(i), _realLP->upper(i)", "_realLP->upper(i), _realLP->lower(i)")])
+inst("aux_completeRangeTypesRational", "SoPlexBase<R>::_completeRangeTypesRational()", "void " + P + "_completeRangeTypesRational()", "aux_recompute", "", {"COMPLETE": ""},
+     props=("C07",), loops=rt_loops(False, "g_qnr", "g_qnc", complete=True),
+     mutants=[mut("from_zero", "aux_completeRangeTypesRational", "int i = _rowTypes.size();", "int i = 0;"), mut("swap", "aux_completeRangeTypesRational", "_rationalLP->lhs(i), _rationalLP->rhs(i)", "_rationalLP->rhs(i), _rationalLP->lhs(i)")])
+
+inst("aux_idxToPerm", "SoPlexBase<R>::_idxToPerm(int* idx, int idxSize, int* perm, int permSize) const", "void " + P + "_idxToPerm(int* idx, int idxSize, int* perm, int permSize) const", "aux_perm",
+     "int* idx = a_idx; int idxSize = a_n; int* perm = a_perm; int permSize = a_i;", {}, props=("C06",),
+     loops=[loop(0, [["i", "1::i"], "permSize"], ["0 <= i && i <= permSize", "(g_k < 0 || g_k >= i) || gp_perm[g_k] == g_k"], ["i", "ARR(gp_perm)"], "permSize - i"),
+            loop(1, [["i", "2::i"], "permSize", "idxSize", "idx"],
+                 ["0 <= i && i <= idxSize", "(g_k < 0 || g_k >= permSize) || gp_perm[g_k] == g_k || gp_perm[g_k] == -1",
+                  "(g_k < 0 || g_k >= permSize) || !v_exp || gp_perm[g_k] == g_k",
+                  "(g_k < 0 || g_k >= permSize) || (g_k2 < 0 || g_k2 >= i) || idx[g_k2] != g_k || gp_perm[g_k] == -1"],
+                 ["i", "ARR(gp_perm)"], "idxSize - i")],
+     mutants=[mut("wrong_mark", "aux_idxToPerm", "perm[idx[i]] = -1;", "perm[idx[i]] = 0;"), mut("off_by_one", "aux_idxToPerm", "for(int i = 0; i < idxSize; i++)", "for(int i = 1; i < idxSize; i++)")])
+inst("aux_rangeToPerm", "SoPlexBase<R>::_rangeToPerm(int start, int end, int* perm, int permSize) const", "void " + P + "_rangeToPerm(int start, int end, int* perm, int permSize) const", "aux_perm",
+     "int start = a_j; int end = a_n; int* perm = a_perm; int permSize = a_i;", {"RANGE": ""}, props=("C06",),
+     loops=[loop(0, ["i", "permSize", "start", "end"], ["0 <= i && i <= permSize", "(g_k < 0 || g_k >= i) || gp_perm[g_k] == ((g_k < start || g_k > end) ? g_k : -1)"], ["i", "ARR(gp_perm)"], "permSize - i")],
+     mutants=[mut("exclusive_end", "aux_rangeToPerm", "i > end", "i >= end"), mut("wrong_mark", "aux_rangeToPerm", "? i : -1", "? i : 0")])
+
 # ------------------------------------------------------------------------------------------------
 def main():
     unit = {
@@ -178,6 +660,16 @@ def main():
         "instances": [e for e, _, f in T.rows if not f],
     }
     json.dump(unit, open(os.path.join(HERE, "unit.json"), "w"), indent=1)
+    # instances whose obligations FAIL on the unchanged tree (suspected defects): kept in a unit of their own,
+    # not registered in props/ (see the final report); same sources
+    fdir = os.path.join(os.path.dirname(HERE), "lpmod_findings")
+    os.makedirs(fdir, exist_ok=True)
+    funit = dict(unit)
+    funit["desc"] = "lpmod instances that FAIL on the unchanged tree (suspected SoPlex defects); sources shared with units/lpmod"
+    funit["cpp"] = ["../lpmod/unit.cpp"]
+    funit["c"] = ["../lpmod/contract.c"]
+    funit["instances"] = [e for e, _, f in T.rows if f]
+    json.dump(funit, open(os.path.join(fdir, "unit.json"), "w"), indent=1)
     names = [e["name"] for e, _, _ in T.rows]
     assert len(names) == len(set(names)), "duplicate instance names"
     for prop in ("C06", "C07", "C11"):
